@@ -18,7 +18,7 @@ type leaf struct {
 	elem types.Type // element type for slice-typed fields
 }
 
-var heapKeySorts = map[string]string{SInt: SInt, SBool: SBool, SReal: SReal, SStr: SStr}
+var heapKeySorts = map[string]string{SInt: SInt, SBool: SBool, SReal: SReal, SStr: SStr, "H_func": SInt}
 var heapKeyMu sync.Mutex
 
 func registerHeapKey(key, sortName string) {
@@ -50,6 +50,10 @@ func leavesOf(t types.Type) (ls []leaf, complete bool) {
 	if ss, ok := scalarSort(t); ok {
 		return []leaf{{key: ss, sort: ss}}, true
 	}
+	if _, ok := t.Underlying().(*types.Signature); ok {
+		registerHeapKey("H_func", SInt)
+		return []leaf{{key: "H_func", sort: SInt}}, true
+	}
 	var rec func(t types.Type, path []int, prefix string)
 	rec = func(t types.Type, path []int, prefix string) {
 		if ss, ok := scalarSort(t); ok {
@@ -58,6 +62,10 @@ func leavesOf(t types.Type) (ls []leaf, complete bool) {
 			return
 		}
 		switch u := t.Underlying().(type) {
+		case *types.Signature:
+			// function values stored in slices are identified by an integer id
+			registerHeapKey(prefix+"_fn", SInt)
+			ls = append(ls, leaf{path: append([]int(nil), path...), key: prefix + "_fn", sort: SInt})
 		case *types.Struct:
 			for i := 0; i < u.NumFields(); i++ {
 				rec(u.Field(i).Type(), append(path, i), prefix+"_"+sanitizeIdent(u.Field(i).Name()))
@@ -90,6 +98,9 @@ func getPath(v Value, path []int) Value {
 func (fc *funcCtx) heapLoad(st *State, t types.Type, ref, idx string) Value {
 	if ss, ok := scalarSort(t); ok {
 		return Sc{app("select", app("select", fc.heap(st, ss), ref), idx), ss}
+	}
+	if _, ok := t.Underlying().(*types.Signature); ok {
+		return Sc{app("select", app("select", fc.heap(st, "H_func"), ref), idx), SInt}
 	}
 	ls, _ := leavesOf(t)
 	v := fc.e.zeroShape(st, t)
